@@ -34,6 +34,9 @@ CatAll ==
        [] d = "r:wpart:orig"     -> R("wpart", "C", "orig")
        [] d = "r:wpart:absent"   -> R("wpart", "C", "absent")
        [] d = "r:wpart:partnan"  -> R("wpart", "C", "partnan")
+       [] d = "r:wlong:orig"     -> R("wlong", "C", "orig")
+       [] d = "r:wlong:partnan"  -> R("wlong", "C", "partnan")
+       [] d = "r:wlong:absent"   -> R("wlong", "C", "absent")
        [] d = "r:wdup:orig"      -> R("wdup", "C", "orig")
        [] d = "r:wdup:allnan"    -> R("wdup", "C", "allnan")
        [] d = "r:wdup:absent"    -> R("wdup", "C", "absent")
